@@ -3,6 +3,8 @@
 package json
 
 import (
+	"reflect"
+
 	"github.com/goccy/go-json/internal/decoder"
 	"github.com/goccy/go-json/internal/encoder"
 	"github.com/goccy/go-json/internal/runtime"
@@ -29,4 +31,8 @@ func VerifDecCacheIndex(typeptr uintptr) (int, bool, int) { return decoder.Verif
 
 func VerifStreamTrace(pieces [][]byte, fail bool, ops []byte) []string {
 	return decoder.VerifStreamTrace(pieces, fail, ops)
+}
+
+func VerifKeyMatch(t reflect.Type, text []byte, chunk int) string {
+	return decoder.VerifKeyMatch(t, text, chunk)
 }
